@@ -343,6 +343,33 @@ func runC20Scenario(c *c20Case, st *stats, idx int, scratch string) {
 					return
 				}
 			}
+		case "restart-heal":
+			// the member stops and starts again (repeating the handshake with its seed) while the network is still cut;
+			// half a second into the handshake the network heals
+			n := node(op.Node)
+			if n.srv == nil {
+				continue
+			}
+			w.stop(n)
+			time.Sleep(50 * time.Millisecond)
+			done := make(chan error, 1)
+			go func() { done <- w.start(n, len(n.join) > 0) }()
+			time.Sleep(500 * time.Millisecond)
+			w.net.mu.Lock()
+			w.net.cut = map[uint64]bool{}
+			w.net.mu.Unlock()
+			var err error
+			select {
+			case err = <-done:
+			case <-time.After(25 * time.Second):
+				err = fmt.Errorf("the restart did not return within 25 s")
+			}
+			ev("restart %d during a cut that heals 500 ms into its handshake: %v", n.id, err)
+			c.Restarts = append(c.Restarts, c20RestartAt{Node: n.id, Cut: n.snap, Rejoined: len(n.join) > 0})
+			if err != nil && n.srv == nil {
+				fail("restart: "+err.Error(), "server-restart")
+				return
+			}
 		case "cut":
 			w.net.mu.Lock()
 			w.net.cut[uint64(op.Node)] = true
@@ -451,6 +478,9 @@ func c20Scripts(r *rng, n int, thorough bool) []c20Case {
 		c20Op{Kind: "boot", Node: 1}, c20Op{Kind: "join", Node: 2, Via: 1}, c20Op{Kind: "join", Node: 3, Via: 1}, c20Op{Kind: "settle"},
 		c20Op{Kind: "cut", Node: 2}, c20Op{Kind: "remove", Node: 3}, c20Op{Kind: "join", Node: 3, Via: 2}, c20Op{Kind: "heal"}, c20Op{Kind: "settle"},
 		c20Op{Kind: "join", Node: 3, Via: 2}, c20Op{Kind: "settle"})
+	add("a node is removed while a member is cut off; another member restarts with the cut-off member as its seed; the cut heals during the handshake: the answer must not bring the removed node back",
+		c20Op{Kind: "boot", Node: 1}, c20Op{Kind: "join", Node: 2, Via: 1}, c20Op{Kind: "join", Node: 3, Via: 2}, c20Op{Kind: "join", Node: 4, Via: 1}, c20Op{Kind: "settle"},
+		c20Op{Kind: "cut", Node: 2}, c20Op{Kind: "remove", Node: 4}, c20Op{Kind: "restart-heal", Node: 3}, c20Op{Kind: "settle"})
 	for len(cs) < n {
 		// random histories: 2..4 joins, optional removal, snapshot + restart of a random member, a late join
 		var ops []c20Op
